@@ -12,6 +12,7 @@ use crate::Record;
 /// A BED writer.
 pub struct Writer<const N: usize, W> {
     inner: W,
+    buf: Vec<u8>,
 }
 
 impl<const N: usize, W> Writer<N, W> {
@@ -72,7 +73,10 @@ where
     /// let writer = bed::io::Writer::<3, _>::new(io::sink());
     /// ```
     pub fn new(inner: W) -> Self {
-        Self { inner }
+        Self {
+            inner,
+            buf: Vec::new(),
+        }
     }
 }
 
@@ -112,7 +116,11 @@ where
     where
         R: crate::feature::Record<3>,
     {
-        write_record_3(&mut self.inner, record)
+        // A record is serialized to a buffer first so that a record that fails to serialize
+        // does not leave a partial line in the output.
+        self.buf.clear();
+        write_record_3(&mut self.buf, record)?;
+        self.inner.write_all(&self.buf)
     }
 }
 
@@ -152,7 +160,11 @@ where
     where
         R: crate::feature::Record<4>,
     {
-        write_record_4(&mut self.inner, record)
+        // A record is serialized to a buffer first so that a record that fails to serialize
+        // does not leave a partial line in the output.
+        self.buf.clear();
+        write_record_4(&mut self.buf, record)?;
+        self.inner.write_all(&self.buf)
     }
 }
 
@@ -192,7 +204,11 @@ where
     where
         R: crate::feature::Record<5>,
     {
-        write_record_5(&mut self.inner, record)
+        // A record is serialized to a buffer first so that a record that fails to serialize
+        // does not leave a partial line in the output.
+        self.buf.clear();
+        write_record_5(&mut self.buf, record)?;
+        self.inner.write_all(&self.buf)
     }
 }
 
@@ -232,6 +248,10 @@ where
     where
         R: crate::feature::Record<6>,
     {
-        write_record_6(&mut self.inner, record)
+        // A record is serialized to a buffer first so that a record that fails to serialize
+        // does not leave a partial line in the output.
+        self.buf.clear();
+        write_record_6(&mut self.buf, record)?;
+        self.inner.write_all(&self.buf)
     }
 }
